@@ -7,12 +7,12 @@ Import ListNotations.
 
 Definition cfg_cross : list okind := [KGate2 0; KGate2 1].
 
-(* both operations return, afterwards the orphaned requests 11 and 10 are granted: both node locks are held for ever *)
+(* both operations return; afterwards request 4 of operation 1, orphaned by its timeout branch, is granted: the lock of node 0
+   is held for ever *)
 Definition leak_trace : list ev :=
-  [EIssue 0; ELockn 0 [1]; EReq 0 0 1; EAcq 0 0 1; EIssue 1; ELockn 1 [0]; EReq 1 1 2; EAcq 1 1 2; EReq 1 0 3; EReq 0 1 4;
-   ETimeout 0; ERel 1 0 true; ERel 0 0 true; ELockn 0 [1]; EReq 0 0 5; EAcq 0 0 5; EReq 1 0 6; EAcq 1 0 6;
-   ETimeout 1; ERel 1 1 true; ERel 0 1 true; ELockn 1 [0]; EReq 1 1 7; EAcq 1 1 7; EReq 0 1 8; EAcq 0 1 8;
-   ERel 1 0 true; ERel 0 0 true; EDone 0; ERel 1 1 false; ERel 0 1 false; EDone 1; EAcq 0 1 4; EAcq 1 0 3].
+  [EIssue 0; ELockn 0 [1]; EReq 0 0 1; EAcq 0 0 1; EReq 1 0 2; EAcq 1 0 2; EIssue 1; ELockn 1 [0]; EReq 1 1 3; EReq 0 1 4;
+   ERel 0 0 true; ETimeout 1; ERel 1 0 true; ERel 0 1 false; EDone 0; ERel 1 1 false; ELockn 1 [0]; EReq 1 1 5; EAcq 1 1 5;
+   EReq 0 1 6; EAcq 0 1 6; ERel 0 1 true; ERel 1 1 true; EDone 1; EAcq 0 1 4].
 
 (* once every operation has returned nobody releases anything any more *)
 Definition all_done (s : st) : Prop := forall o, op_of s o = SDone.
@@ -54,38 +54,36 @@ Qed.
 
 Theorem orphan_lock_leak_lemma :
   exists s, run cfg_cross (init 2 cfg_cross) leak_trace = Some s /\
-    done s 0 = true /\ done s 1 = true /\
-    lock_of s 0 = Some (1, true) /\ lock_of s 1 = Some (0, true) /\
-    forall tr' s', run cfg_cross s tr' = Some s' -> lock_of s' 0 = Some (1, true) /\ lock_of s' 1 = Some (0, true).
+    done s 0 = true /\ done s 1 = true /\ lock_of s 0 = Some (1, true) /\
+    forall tr' s', run cfg_cross s tr' = Some s' -> lock_of s' 0 = Some (1, true).
 Proof.
   destruct (run cfg_cross (init 2 cfg_cross) leak_trace) as [s|] eqn:R; [|vm_compute in R; discriminate].
   exists s. split; auto.
-  assert (E : s = mk [Some (1, true); Some (0, true)] [SDone; SDone] []) by (vm_compute in R; inv R; reflexivity).
+  assert (E : s = mk [Some (1, true); None] [SDone; SDone] []) by (vm_compute in R; inv R; reflexivity).
   subst s. repeat split; try reflexivity.
-  - eapply all_done_run; eauto. apply all_done_of_list. reflexivity.
-  - eapply all_done_run; eauto. apply all_done_of_list. reflexivity.
+  intros tr' s' R'. eapply all_done_run; eauto. apply all_done_of_list. reflexivity.
 Qed.
 
-(* mutual exclusion fails: operation 1 is inside its critical section over nodes 1 and 0 (all requests granted) when the
-   release_global_lock sent by the timeout branch of operation 0 arrives at node 1 and frees the lock operation 1 holds there
-   (in the implementation the gate body of operation 1 then fails with AssertionError "No global lock present") *)
+(* mutual exclusion fails: operation 0 is inside its critical section over nodes 0 and 1 (all requests granted) when the
+   release_global_lock sent by the timeout branch of operation 1 arrives at node 0 and frees the lock operation 0 holds there
+   (in the implementation the gate body of operation 0 then fails with AssertionError "No global lock present") *)
 Definition critical (s : st) (o : opid) (n : nid) : bool :=
   match op_of s o with SG2 reqs => all_granted reqs && mem n (map fst reqs) | _ => false end.
 
 Definition steal_trace : list ev :=
   [EIssue 0; ELockn 0 [1]; EReq 0 0 1; EAcq 0 0 1; EIssue 1; ELockn 1 [0]; EReq 1 1 2; EAcq 1 1 2;
-   ETimeout 0; ERel 0 0 true; EReq 0 1 3; EAcq 0 1 3; EReq 1 0 4; ERel 1 0 true].
+   ETimeout 1; ERel 1 1 true; EReq 1 0 3; EAcq 1 0 3; EReq 0 1 4; ERel 0 1 true].
 
 Theorem mutual_exclusion_refuted_lemma :
   exists s, run cfg_cross (init 2 cfg_cross) steal_trace = Some s /\
-    critical s 1 0 = true /\ critical s 1 1 = true /\ lock_of s 1 = None.
+    critical s 0 0 = true /\ critical s 0 1 = true /\ lock_of s 0 = None.
 Proof. eexists. split; [vm_compute; reflexivity|]. repeat split. Qed.
 
-(* the release that did it: issued on behalf of operation 0 on the lock held by operation 1 *)
+(* the release that did it: issued on behalf of operation 1 on the lock held by operation 0 *)
 Theorem foreign_release_lemma :
-  exists pre s, pre ++ [ERel 1 0 true] = steal_trace /\
+  exists pre s, pre ++ [ERel 0 1 true] = steal_trace /\
     run cfg_cross (init 2 cfg_cross) pre = Some s /\
-    critical s 1 1 = true /\ lock_of s 1 = Some (1, false).
+    critical s 0 0 = true /\ lock_of s 0 = Some (0, false).
 Proof.
   exists (firstn 13 steal_trace). eexists. split; [reflexivity|]. split; [vm_compute; reflexivity|]. split; reflexivity.
 Qed.
